@@ -16,14 +16,17 @@
 EXTENDS TdxVerify
 
 CONSTANTS HistDims,    \* dimensions from which the faulty world W is drawn (single deviations)
+          HistPairs,   \* pairs <<d, e>> of dimensions whose double deviations are faulty worlds too
           HistQuick    \* TRUE: the quick selection of histories (below); FALSE: all of them
 
 Wids == {"T", "W", "B"}
 LevelsH == { [gc |-> FALSE, cr |-> FALSE], [gc |-> TRUE, cr |-> FALSE], [gc |-> TRUE, cr |-> TRUE] }
 StepsH == [wid : Wids, gc : BOOLEAN, cr : BOOLEAN, entry : {"msg", "raw"}]     \* entry: TdxQuote on a message / RawTdxQuote on bytes
-Mids == {"none", "levels"}     \* levels: SupportedTcbLevelsFromCollateral is called between the two calls, through the same Options value
+Mids == {"none", "levels", "addRoot"}     \* addRoot: the owner of the first call's options adds the quote's root to the pool RootOfTrustToOptions built for it     \* levels: SupportedTcbLevelsFromCollateral is called between the two calls, through the same Options value
 GoodStep(s) == ~(s.cr /\ ~s.gc)
-FaultWorlds == UNION {Override(Baseline, {d}) : d \in HistDims}
+SingleWorlds == UNION {Override(Baseline, {d}) : d \in HistDims}
+OnlyPairWorlds == UNION {Override(Baseline, {pr[1], pr[2]}) : pr \in HistPairs} \ SingleWorlds
+FaultWorlds == SingleWorlds \cup OnlyPairWorlds
 
 \* the honest twin: baseline, except that material W borrows from another honest quote is that quote's own
 Twin(f) == IF f.qeSigner = "otherLeaf" THEN [Baseline EXCEPT !.leafId = (IF f.leafId = "l1" THEN "l2" ELSE "l1")] ELSE Baseline
@@ -35,13 +38,18 @@ hvars == <<fault, shared, mid, hist, k, stored, verdicts>>
 OptOf(s) == [gc |-> s.gc, cr |-> s.cr, now |-> "set", entry |-> s.entry]
 NoStore == [chain |-> "none", collateral |-> "none"]
 HInit == /\ fault \in FaultWorlds /\ shared \in BOOLEAN
-         /\ hist \in {<<a, b>> : a \in {s \in StepsH : GoodStep(s) /\ s.wid \in {"T", "B"}}, b \in StepsH}   \* the second call may also ask for revocation checking without collateral (refused, whatever the first call left behind)
+         /\ hist \in {<<a, b>> : a \in {s \in StepsH : GoodStep(s)}, b \in StepsH}   \* the second call may also ask for revocation checking without collateral (refused, whatever the first call left behind)
+         /\ mid \in Mids
          /\ ~(hist[1].entry = "raw" /\ hist[2].entry = "raw")
          /\ \A i \in 1..2 : Realisable(WorldOf(hist[i].wid, fault), OptOf(hist[i]))
-         /\ mid \in Mids /\ (mid = "levels" => shared /\ hist[1].gc)          \* the reporting call needs the collateral the first call fetched
+         /\ (fault \in OnlyPairWorlds => mid = "addRoot")     \* double deviations serve those histories only
+         /\ (hist[1].wid = "W" => mid = "addRoot")         \* the first call is on an honest world, except in the pool-ownership histories
+         /\ (mid = "addRoot" => /\ ~shared /\ hist[1].wid = "W" /\ hist[2].wid = "W" /\ fault.rotVia \in {"files", "inline", "mixed"}
+                                /\ hist[1].entry = "msg" /\ hist[2].entry = "msg" /\ ~hist[1].gc /\ ~hist[2].gc /\ ~hist[2].cr)
+         /\ (mid = "levels" => shared /\ hist[1].gc)          \* the reporting call needs the collateral the first call fetched
          \* quick selection: every message/message history (the reporting call in between only before a call that asks for revocation
          \* checking) and, of those that mix the two entry points, the ones that keep the option level
-         /\ (HistQuick => IF hist[1].entry = "msg" /\ hist[2].entry = "msg" THEN (mid = "none" \/ hist[2].cr)
+         /\ (HistQuick => IF hist[1].entry = "msg" /\ hist[2].entry = "msg" THEN (mid \in {"none", "addRoot"} \/ hist[2].cr)
                           ELSE mid = "none" /\ hist[1].gc = hist[2].gc /\ hist[1].cr = hist[2].cr)
          /\ k = 1 /\ stored = NoStore /\ verdicts = <<>>
          /\ w = Baseline /\ o = [gc |-> FALSE, cr |-> FALSE, now |-> "set", entry |-> "msg"] /\ pc = 1 /\ verdict = "none" /\ fetches = <<>> /\ dp = 1
